@@ -48,11 +48,20 @@ def analyse_writers(ctx, f, roles):
         paths = sym.SymExec(f, body).run()
         ctx.saw("%s: %d paths" % (w, len(paths)))
         for p in paths:
-            if p.end != "return":
+            if p.end not in ("return", "loopback"):
                 ctx.fail("%s:path-end" % short(w), "writer %s has a path ending in %s" % (w, p.end), loc(body))
                 continue
             n_paths += 1
-            ch = changed_fields(p.store[("P", "self")], root)
+            final = p.store[("P", "self")]
+            if p.pre_loop or p.end == "loopback":
+                # a writer with a loop (it toggles a set of squares): every segment of an execution -- entry to the loop
+                # head, one iteration, loop head to return -- must keep state and hash in step; the engine's paths are
+                # "prefix + one iteration" and "prefix + exit" with the state at the loop head havocked, so the prefix
+                # must leave the state alone and the rest is read relative to the state at the head
+                final = loop_segment(ctx, w, body, p, final, root)
+                if final is None:
+                    continue
+            ch = changed_fields(final, root)
             if ch is None:
                 ctx.fail("%s:opaque-change" % short(w), "cannot read off what %s changes: %s" % (w, sym.show(p.store[("P", "self")])[:200]), loc(body))
                 continue
@@ -75,7 +84,7 @@ def analyse_writers(ctx, f, roles):
                 ctx.check(not keys, key + ":hash-only", "%s changes the hash on a path that changes no state field (keys %s)"
                           % (w, sample["keys_xored"]), loc(body), sample=sample)
                 continue
-            exp = expected_keys(ctx, f, body, p, ch, root, features, w)
+            exp = expected_keys(ctx, f, body, p, ch, root, features, w, final)
             if exp is None:
                 continue
             want, feat = exp
@@ -85,6 +94,47 @@ def analyse_writers(ctx, f, roles):
                       % (w, sorted(state), [show_key(k) for k in got], [show_key(k) for k in want]), loc(body), sample=sample)
     ctx.floor("writer paths", n_paths, 14)
     return features
+
+
+def loop_segment(ctx, w, body, p, final, root):
+    """the final state of a path through a writer's loop, re-expressed over the state at the loop head"""
+    heads = [k for k in p.pre_loop if k[0] == 0]
+    if len(heads) != 1 or len(p.pre_loop) != 1:
+        ctx.fail("%s:loops" % short(w), "writer %s has nested or several loops: not analysed" % w, loc(body))
+        return None
+    snap = p.pre_loop[heads[0]]
+    hvmap = {}
+    for (lname, path), oldv in snap.items():
+        if lname != "*self":
+            continue
+        if len(path) != 1 or path[0][0] != "f":
+            ctx.fail("%s:loop-state" % short(w), "writer %s: the loop writes a part of the state the rule cannot name (%s)" % (w, path), loc(body))
+            return None
+        fld = path[0][1]
+        if oldv is not None and oldv != ("field", root, fld):
+            ctx.fail("%s:state-before-loop" % short(w), "writer %s changes %s before its loop: not analysed" % (w, fld), loc(body))
+            return None
+        hvmap[("hv", body.key.rsplit("::", 1)[-1], "*self." + fld, heads[0][1])] = ("field", root, fld)
+
+    def sub(e):
+        if isinstance(e, tuple):
+            if e in hvmap:
+                return hvmap[e]
+            return tuple(sub(x) for x in e)
+        return e
+    v = sub(final)
+    # drop `field := field` left over from the havoc
+    out = []
+    while v != root:
+        if v[0] != "with" or v[2][0] != "f":
+            return v
+        if v[3] != ("field", root, v[2][1]):
+            out.append((v[2], v[3]))
+        v = v[1]
+    r = root
+    for fl, val in reversed(out):
+        r = ("with", r, fl, val)
+    return r
 
 
 def show_key(k):
@@ -101,7 +151,9 @@ def table_shape(k):
     return item, tuple("[]" if isinstance(x, tuple) else x for x in path)
 
 
-def expected_keys(ctx, f, body, p, ch, root, features, w):
+def expected_keys(ctx, f, body, p, ch, root, features, w, final=None):
+    if final is None:
+        final = p.store[("P", "self")]
     """required key multiset for the state change on this path"""
     sw = short(w)
     fields = set(ch)
@@ -116,7 +168,7 @@ def expected_keys(ctx, f, body, p, ch, root, features, w):
         feat = features.setdefault("piece", {})
         # find the key used: a key whose indices are exactly {ia, ib, idx(sq)}
         want_idx = sorted([ia, ib, enum_idx(sq)], key=repr)
-        newhash = p.store[("P", "self")]
+        newhash = final
         tab = None
         for l in cancel(xor_leaves(find_hash(newhash, root))):
             kp = key_path(l)
@@ -140,7 +192,7 @@ def expected_keys(ctx, f, body, p, ch, root, features, w):
         # side toggle
         if new == ("cnot", old):
             feat = features.setdefault("side", {})
-            keys = [key_path(l) for l in cancel(xor_leaves(find_hash(p.store[("P", "self")], root))) if key_path(l)]
+            keys = [key_path(l) for l in cancel(xor_leaves(find_hash(final, root))) if key_path(l)]
             if len(keys) == 1 and not any(isinstance(x, tuple) for x in keys[0][1]):
                 feat["table"] = table_shape(keys[0])
                 return [keys[0]], "side"
@@ -158,7 +210,7 @@ def expected_keys(ctx, f, body, p, ch, root, features, w):
             feat = features.setdefault(fld, {})
             want = []
             # table: learnt from any path that XORs a key for this feature
-            keys = [key_path(l) for l in cancel(xor_leaves(find_hash(p.store[("P", "self")], root))) if key_path(l)]
+            keys = [key_path(l) for l in cancel(xor_leaves(find_hash(final, root))) if key_path(l)]
             for k in keys:
                 feat.setdefault("table", table_shape(k))
                 feat.setdefault("example", k)
